@@ -41,6 +41,7 @@ ASSUMPTIONS = [
 REQUIRED = [
     "bounded_pipe_sessions",
     "bounded_pipe_sequential_peer",
+    "multi_writer_sessions",
     "sessions_async_client_role",
     "sessions_async_server_role",
     "sessions_sync",
@@ -78,6 +79,11 @@ def _windows(msgs: list[bytes]) -> list[bytes]:
 def async_session(ctx, rng: random.Random, version: str, lib_server: bool, p: dict) -> str | None:
     lib_msgs = [_payload(rng, f"L{i}", s) for i, s in enumerate(p["lib_sizes"])]
     peer_msgs = [_payload(rng, f"P{i}", s) for i, s in enumerate(p["peer_sizes"])]
+    multi = p.get("lib_writers", 1) > 1
+    if multi:
+        # several writer tasks on the library side: every message is framed (writer id, seq, length) so that the peer's
+        # plaintext can be checked for whole, unduplicated, per-writer-ordered messages whatever the interleaving of the calls
+        lib_msgs = [bytes([65 + (i % p["lib_writers"])]) + (i // p["lib_writers"]).to_bytes(2, "big") + len(m).to_bytes(4, "big") + m for i, m in enumerate(lib_msgs)]
     lib_expect = b"".join(peer_msgs)
     peer_expect = b"".join(lib_msgs)
     state: dict[str, Any] = {"lib_read": bytearray(), "why": None, "phase": "handshake"}
@@ -112,7 +118,7 @@ def async_session(ctx, rng: random.Random, version: str, lib_server: bool, p: di
                     d = await peer.read_some(p["peer_read"])
                     if not d:
                         break
-                    if peer_expect[before : before + len(d)] != d:
+                    if not multi and peer_expect[before : before + len(d)] != d:
                         state["why"] = f"peer read bytes that the library did not write at offset {before}"
                         return
 
@@ -124,56 +130,16 @@ def async_session(ctx, rng: random.Random, version: str, lib_server: bool, p: di
             else:
                 await asyncio.gather(w(), r())
 
-        # SSLObject of the peer must not be used by two tasks at once: serialize with a lock inside AsyncPeer._pump
-        lock = asyncio.Lock()
-        orig_pump = peer._pump
-
-        async def locked_pump(fn, *args):
-            # only the non-blocking call itself needs exclusion; waiting for data must not hold the lock
-            buf = bytearray(65536)
-            while True:
-                async with lock:
-                    try:
-                        r_ = fn(*args)
-                        done = True
-                    except ssl.SSLWantReadError:
-                        done = False
-                        want = "r"
-                    except ssl.SSLWantWriteError:
-                        done = False
-                        want = "w"
-                    await peer._flush()
-                if done:
-                    return r_
-                if want == "r":
-                    n = await peer.t.recv_into(buf)
-                    async with lock:
-                        if n == 0:
-                            peer.inbio.write_eof()
-                        else:
-                            peer.inbio.write(bytes(buf[:n]))
-
-        peer._pump = locked_pump  # type: ignore[method-assign]
-        peer_recv_lock = asyncio.Lock()
-
-        class _OneReader:
-            async def recv_into(self, buf):
-                async with peer_recv_lock:
-                    return await b.recv_into(buf)
-
-            async def send_all(self, data):
-                return await b.send_all(data)
-
-        peer.t = _OneReader()
-
         pt = asyncio.ensure_future(peer_side())
         ctxl = tlspeer.server_context(version) if lib_server else tlspeer.client_context(version)
         t = await AsyncTLSStreamTransport.wrap(a, ctxl, server_side=lib_server, server_hostname=None if lib_server else "localhost", handshake_timeout=1e6, shutdown_timeout=1e6)
         state["phase"] = "transfer"
         state["hs_recv_calls"] = a.n_recv
 
-        async def lw():
+        async def lw(which: int = 0, nw: int = 1):
             for i, m in enumerate(lib_msgs):
+                if i % nw != which:
+                    continue
                 if p["lib_iterable"] and len(m) > 4:
                     await t.send_all_from_iterable([m[:3], b"", m[3:]])
                 else:
@@ -199,7 +165,8 @@ def async_session(ctx, rng: random.Random, version: str, lib_server: bool, p: di
                     return
                 got += d
 
-        await asyncio.gather(lw(), lr(), pt)
+        nw = p.get("lib_writers", 1)
+        await asyncio.gather(*[lw(k, nw) for k in range(nw)], lr(), pt)
         state["phase"] = "close"
         closer = asyncio.ensure_future(t.aclose())
         await peer.read_until_end()
@@ -219,7 +186,24 @@ def async_session(ctx, rng: random.Random, version: str, lib_server: bool, p: di
     a = state["a"]
     if bytes(state["lib_read"]) != lib_expect:
         return f"library read {len(state['lib_read'])} bytes, peer wrote {len(lib_expect)}"
-    if bytes(peer.plaintext_in) != peer_expect:
+    if multi:
+        data = bytes(peer.plaintext_in)
+        pos = 0
+        seen = []
+        while pos < len(data):
+            if pos + 7 > len(data):
+                return f"peer's plaintext ends inside a message header at offset {pos}"
+            ln = int.from_bytes(data[pos + 3 : pos + 7], "big")
+            seen.append(data[pos : pos + 7 + ln])
+            pos += 7 + ln
+        if sorted(seen) != sorted(lib_msgs):
+            return f"with {p['lib_writers']} concurrent writers the peer did not receive exactly the written messages ({len(seen)} parsed, {len(lib_msgs)} written)"
+        for wid in range(p["lib_writers"]):
+            seqs = [int.from_bytes(m[1:3], "big") for m in seen if m[0] == 65 + wid]
+            if seqs != sorted(seqs):
+                return f"messages of writer {wid} arrived out of order: {seqs}"
+        ctx.count("multi_writer_sessions")
+    elif bytes(peer.plaintext_in) != peer_expect:
         return f"peer read {len(peer.plaintext_in)} bytes, library wrote {len(peer_expect)}"
     wire = a.wire_bytes()
     for w in _windows(lib_msgs):
@@ -370,6 +354,7 @@ def gen_params(rng: random.Random, heavy: bool) -> dict:
         "lib_iterable": rng.random() < 0.3,
         "capacity": rng.choice([None, None, 4096, 16384]),
         "peer_sequential": False,
+        "lib_writers": rng.choice([1, 1, 2, 3]),
     }
     if rng.random() < 0.25:
         # a peer that writes everything before it reads, over bounded pipes that hold at least a whole handshake flight
